@@ -7,7 +7,7 @@ use crate::ir::decl;
 use crate::ir::pl::{self, new_binop};
 use crate::pr;
 use crate::semantic::{NS_THAT, NS_THIS};
-use crate::{Error, Result};
+use crate::{Error, Result, WithErrorInfo};
 
 /// An AST pass that maps AST to PL.
 pub fn expand_expr(expr: pr::Expr) -> Result<pl::Expr> {
@@ -144,12 +144,14 @@ fn expand_unary(pr::UnaryExpr { op, expr }: pr::UnaryExpr) -> Result<pl::ExprKin
             let pl::ExprKind::Ident(ident) = expr.kind else {
                 return Err(Error::new_simple(
                     "self-equality operator requires a column name",
-                ));
+                )
+                .with_span(expr.span));
             };
             if !ident.path.is_empty() {
                 return Err(Error::new_simple(
                     "self-equality operator does not support namespace prefix",
-                ));
+                )
+                .with_span(expr.span));
             }
 
             let left = pl::Expr {
